@@ -443,7 +443,7 @@ def c15(ctx):
         why = oracle.check_const(c, _sem_of(st), im)
         if why:
             ctx.fail("oracle", "constants", ln, im, "-", why)
-    ctx.assumptions.append("accuracy clause: searched with mpmath at 4x precision (no theorem); structural clauses: theorems")
+    ctx.assumptions.append("accuracy: ln2 and e are theorems for every format of the domain (ln2_accuracy, e_accuracy), pi at eight standard formats (pi_ulp_*); pi at the other formats is searched with mpmath at 4x precision on every run (no universal theorem); this run additionally re-judges every constant of the pool with mpmath")
     return done(ctx)
 
 
@@ -468,7 +468,7 @@ def c16(ctx):
     fm = tiers(ctx, gen.TRANS_FMTS_Q, gen.TRANS_FMTS_T)
     extra = gen.exp_threshold_lines(rng, fm) + gen.log_near_one_lines(rng, fm, tiers(ctx, 12, 60)) + gen.exp_narrow_wide_lines(rng, tiers(ctx, 40, 400)) + gen.exp_top_binade_lines(tiers(ctx, [11, 12, 13], [9, 10, 11, 12, 13, 14, 15, 16])) + gen.sigmoid_negative_lines(rng, tiers(ctx, 3000, 30000))
     _fn_check(ctx, ["exp", "log", "sigmoid"], "exp-log-sigmoid", extra)
-    ctx.assumptions.append("accuracy clause: searched with mpmath at 4x precision (no theorem); special-operand clauses: theorems")
+    ctx.assumptions.append("accuracy: exp, log, sigmoid are theorems for p >= 8 (exp_accuracy/exp_total, log_accuracy, sigmoid_accuracy; side conditions in unproven_clauses); this run additionally judges every answer of the pool with mpmath at 4x precision, which is the only judge for p < 8 and for the sigmoid edge formats")
     return done(ctx)
 
 
@@ -515,7 +515,7 @@ def c17(ctx):
                     why = oracle.check_symmetry(name, im, other)
                     if why:
                         ctx.fail("oracle", "fp16-exhaustive", "fn %s %s N1%s" % (name, s, tok[2:]), other, im, why)
-    ctx.assumptions.append("accuracy clause: searched with mpmath at 4x precision (no theorem); specials and exact symmetry: theorems")
+    ctx.assumptions.append("accuracy: theorems for |x| < 1 (every format of the domain) and for 1 <= |x| <= 128 at the standard formats / conditionally on the computed pi elsewhere (see unproven_clauses); this run additionally judges every answer of the pool with mpmath at 4x precision, which is the only judge where no theorem applies")
     return done(ctx)
 
 
@@ -535,7 +535,7 @@ def c18(ctx):
             why = oracle.check_powi(_sem_of(t[1]), int(t[2]), t[3], im)
         if why:
             ctx.fail("oracle", "pow-powi", ln, im, "-", why)
-    ctx.assumptions.append("accuracy clause: powi checked against the exact rational power; pow searched with mpmath (no theorem); identities: theorems")
+    ctx.assumptions.append("accuracy: powi_within and pow_accuracy are theorems (side conditions in unproven_clauses); this run additionally judges powi against the exact rational power and pow with mpmath at 4x precision")
     return done(ctx)
 
 
